@@ -91,6 +91,14 @@ def build(cfg, values=None):
                 allf.append(add_forces(ctx, p, 'p%dF' % q, ncte, ninc))
                 panels.append(p)
             asm = PanelAssembly(panels)
+            if cfg.get('loads_changed_in_place'):
+                # an earlier request on the same assembly, then the loads are edited in place (same number of loads, same load factor)
+                asm.calc_fext(inc=inc, silent=True)
+                for q, p in enumerate(panels):
+                    for lst, tag in ((p.forces, 'c'), (p.forces_inc, 'i')):
+                        for k, f in enumerate(lst):
+                            f[4] = ctx.V('p%d_new_fz_%s%d' % (q, tag, k))
+                            f[0] = ctx.V('p%d_new_x_%s%d' % (q, tag, k))
             fext = asm.calc_fext(inc=inc, silent=True)
             size = asm.get_size()
             obs.append(('assembly-fext-length', Sym.lift(len(fext)), Sym.lift(sum(3 * p.m * p.n for p in panels))))
@@ -139,10 +147,19 @@ def job_solve(cfg):
             contracts.append(L == R)
         calls.append((A.shape, bb.shape))
         return x
+    class LU:
+        def __init__(self, a):
+            self.a = a
+
+        def solve(self, b, *a_, **k_):
+            return spsolve(self.a, b)
+
+    def splu(a, **kw):
+        return LU(a)
     out = None
     target = cfg['target']
     try:
-        with Shadow(None, stubs={'spsolve': spsolve}, policy=GenericPolicy()):
+        with Shadow(None, stubs={'spsolve': spsolve, 'splu': splu, 'factorized': lambda a: LU(a).solve}, policy=GenericPolicy()):
             if target == 'sparse.solve':
                 from compmech.sparse import solve
                 c = solve(K, f, silent=True)
@@ -163,6 +180,9 @@ def job_solve(cfg):
                     # stiffness and loads): the second solution must solve the CURRENT system
                     active = cfg['second']
                     K = sym_matrix('K2_', n, active, V)
+                    if cfg.get('same_diagonal'):
+                        # another structure with the very same diagonal entries (e.g. the mirror-image laminate)
+                        K = sym_matrix('K2_', n, active, lambda nm: V(nm.replace('K2_', 'K')) if nm.split('_')[-1] == nm.split('_')[-2] else V(nm))
                     f = np.zeros(n, dtype=object)
                     for r in range(n):
                         f[r] = V('g%d' % r)
@@ -205,6 +225,7 @@ def configs(tier, seed):
             out.append({'variant': 'panel', 'model': model, 'm': 3, 'n': 3, 'ncte': 3, 'ninc': 3, 'group': 'fext:%s' % model})
     out.append({'variant': 'assembly', 'panels': [(2, 1, 1, 1), (1, 2, 0, 2), (2, 2, 1, 0)], 'm': 2, 'n': 2, 'group': 'assembly-fext'})
     out.append({'variant': 'assembly', 'panels': [(1, 2, 0, 1), (2, 1, 0, 0)], 'm': 1, 'n': 2, 'group': 'assembly-fext'})
+    out.append({'variant': 'assembly', 'panels': [(1, 2, 1, 1), (2, 1, 0, 1)], 'loads_changed_in_place': True, 'm': 1, 'n': 2, 'group': 'assembly-fext-after-loads-were-changed-in-place'})
     if not quick:
         out.append({'variant': 'assembly', 'panels': [(2, 2, 2, 0), (3, 1, 0, 1), (1, 3, 1, 1), (2, 1, 0, 2)], 'm': 2, 'n': 2, 'group': 'assembly-fext'})
     out[0]['canary'] = True
@@ -243,8 +264,12 @@ def real_solve_replay(cfg):
                 active = cfg['second']
                 u = len(active)
                 A2 = rng.rand(u, u)
+                Knew = A2.dot(A2.T) + u * np.eye(u)
+                if cfg.get('same_diagonal'):
+                    Kold = K[np.ix_(active, active)]
+                    Knew = Kold * np.where(np.eye(u) > 0, 1., -0.5)      # same diagonal, other couplings (still diagonally dominant)
                 K = np.zeros((n, n))
-                K[np.ix_(active, active)] = A2.dot(A2.T) + u * np.eye(u)
+                K[np.ix_(active, active)] = Knew
                 f = np.zeros(n)
                 f[active] = rng.rand(u) + 0.5
                 st['K'], st['f'] = sp.csr_matrix(K), f
@@ -272,6 +297,7 @@ def solve_configs(tier):
     # two linear runs of one Analysis object with the structure re-defined in between (same size; same and different null pattern)
     out.append({'target': 'Analysis.static', 'n': 4, 'active': [0, 1, 2, 3], 'second': [0, 1, 2, 3], 'group': 'solve-second-run-after-redefinition:Analysis.static'})
     out.append({'target': 'Analysis.static', 'n': 5, 'active': [0, 2, 3], 'second': [0, 1, 3, 4], 'group': 'solve-second-run-after-redefinition:Analysis.static'})
+    out.append({'target': 'Analysis.static', 'n': 4, 'active': [0, 1, 2, 3], 'second': [0, 1, 2, 3], 'same_diagonal': True, 'group': 'solve-second-run-same-diagonal:Analysis.static'})
     return out
 
 
@@ -301,6 +327,16 @@ def main():
             run.harness_error('%s: %s' % (r['group'], r['error'][:400]))
             continue
         sats = run.absorb_job(r)
+        if not sats:
+            # float twin of the configuration on the real solver route (one run, sampling -- stated as such): code that tells float
+            # arrays from the symbolic ones (dtype tests, typed fast paths) takes another branch there than in the symbolic run
+            real = real_solve_replay(r['cfg'])
+            run.extra.setdefault('float_twins_of_the_solve_configurations', []).append({'cfg': r['cfg']['group'], 'result': real})
+            if (real.get('error') or real.get('max_relative_residual', 0) > 1e-9 or real.get('max_on_null', 0) > 0
+                    or real.get('increments_of_the_second_run', [1.]) != [1.] or real.get('states_reported_by_the_second_run', 1) != 1):
+                run.obligations += 1
+                run.violation('%s/float-twin' % r['group'], '%s: the float twin of the configuration fails on the real solver route although the symbolic run passed (the code distinguishes float input): %s' % (
+                    r['cfg']['target'], real), {'cfg': r['cfg'], 'real_function': real, 'decided_by': 'one float run on the real route (no solver verdict for this branch)'})
         if sats:
             real = real_solve_replay(r['cfg'])
             if (real.get('error') or real.get('max_relative_residual', 0) > 1e-9 or real.get('max_on_null', 0) > 0
